@@ -664,6 +664,17 @@ Proof.
   destruct (build_exact ns []) as [E D]; [simpl; exact L|]. simpl in *. split; [exact E|]. apply D. constructor.
 Qed.
 
+Lemma build_filter_nodup ns : NoDup (map fst ns) -> build_filter ns = ns.
+Proof.
+  unfold build_filter. change (fun m n => aset m (fst n) (snd n)) with fset.
+  assert (G : forall l m, NoDup (map fst (m ++ l)) -> fold_left fset l m = m ++ l).
+  { induction l as [|n t IH]; intros m Dm; simpl; [rewrite app_nil_r; reflexivity|].
+    unfold fset at 2. rewrite aset_notin.
+    - rewrite <- surjective_pairing. rewrite IH; rewrite <- app_assoc; [reflexivity|exact Dm].
+    - rewrite map_app in Dm. simpl in Dm. apply NoDup_remove_2 in Dm. intro X. apply Dm. apply in_or_app. auto. }
+  intro D. apply (G ns []). exact D.
+Qed.
+
 Lemma aget_adel_other m k k' : k' <> k -> aget (adel m k) k' = aget m k'.
 Proof.
   intro Hn. induction m as [|[k0 v0] t IH]; simpl; [reflexivity|].
@@ -761,10 +772,11 @@ Lemma price_decl prev nodes : NoDup (map fst prev) ->
   (new_price * Z.of_nat (length (filter (is_new prev) nodes))
    + update_price * Z.of_nat (length (filter (fun n => negb (is_new prev n) && is_changed prev n) nodes)))%Z.
 Proof.
-  intro D. induction nodes as [|n t IH]; simpl; [lia|].
-  rewrite IH, (node_price_decl _ _ D).
-  destruct (is_new prev n); simpl; [rewrite Nat2Z.inj_succ; lia|].
-  destruct (is_changed prev n); simpl; [rewrite Nat2Z.inj_succ; lia|lia].
+  intro D. induction nodes as [|n t IH]; [cbn [filter length price fold_right Z.of_nat]; ring|].
+  cbn [price fold_right filter]. fold (price prev t). rewrite IH, (node_price_decl _ _ D).
+  destruct (is_new prev n); cbn [negb andb length].
+  - rewrite Nat2Z.inj_succ. ring.
+  - destruct (is_changed prev n); cbn [length]; [rewrite Nat2Z.inj_succ|]; ring.
 Qed.
 
 Lemma cust_nodup nodes : NoDup (map cn_cust_spend nodes) -> NoDup (map cn_cust nodes).
@@ -817,11 +829,13 @@ Proof.
     destruct (length (build_filter (p_nodes prev)) =? length (p_nodes prev)) eqn:E8; simpl; [|discriminate].
     apply Nat.eqb_eq in E8. apply build_filter_exact in E8 as [EB DB]. rewrite EB.
     pose proof W as (La & Lb & Ls & Lm & F & Fr & S).
-    rewrite price_loop_spec; [|lia|apply cust_nodup; eapply fresh_cust_nodup; exact Fr]. simpl.
+    rewrite price_loop_spec; [|lia|apply cust_nodup; eapply (fresh_cust_nodup verify); exact Fr]. simpl.
     destruct (i_cmp (o_amount out) _ <? 0)%Z eqn:E9; [discriminate|].
     assert (P : (price (p_nodes prev) (u_nodes u) <= o_amount out)%Z).
-    { apply Z.ltb_ge in E9. destruct (i_cmp_spec (o_amount out) (0 + price (p_nodes prev) (u_nodes u))%Z) as (C1 & _ & _).
-      destruct (Z_lt_le_dec (o_amount out) (0 + price (p_nodes prev) (u_nodes u))) as [L|L]; [rewrite (C1 L) in E9; lia|lia]. }
+    { apply Z.ltb_ge in E9.
+      match type of E9 with (0 <= i_cmp ?a ?b)%Z =>
+        destruct (i_cmp_spec a b) as (C1 & _ & _);
+        destruct (Z_lt_le_dec a b) as [L|L]; [rewrite (C1 L) in E9; lia|lia] end. }
     intros H. exists out, u, prev.
     rewrite Ee in E7. rewrite (encode_without_sig u Ls) in E7.
     repeat (split; [solve [auto]|]).
@@ -839,16 +853,156 @@ Proof.
     rewrite (proj2 (parse_update_spec verify false _ u) (conj eq_refl W)). simpl.
     apply Nat.ltb_ge in Lm. rewrite Lm.
     rewrite (encode_without_sig u Ls), A. simpl.
-    assert (EB : build_filter (p_nodes prev) = p_nodes prev).
-    { unfold build_filter. change (fun m n => aset m (fst n) (snd n)) with fset.
-      clear -D. generalize (@nil (addr * addr)) at 1. intro m0.
-      assert (G : forall ns m, NoDup (map fst (m ++ ns)) -> fold_left fset ns m = m ++ ns).
-      { induction ns as [|n t IH]; intros m Dm; simpl; [rewrite app_nil_r; reflexivity|].
-        unfold fset at 2. rewrite aset_notin.
-        - rewrite <- surjective_pairing. rewrite IH; rewrite <- app_assoc; [reflexivity|exact Dm].
-        - rewrite map_app in Dm. simpl in Dm. apply NoDup_remove_2 in Dm. intro X. apply Dm. apply in_or_app. auto. }
-      revert m0. fail. }
-    admit.
-Abort.
+    rewrite (build_filter_nodup _ D), Nat.eqb_refl. simpl.
+    rewrite price_loop_spec; [|lia|apply cust_nodup; eapply (fresh_cust_nodup verify); exact Fr]. simpl.
+    assert (C : (i_cmp (o_amount out) (price (p_nodes prev) (u_nodes u)) <? 0)%Z = false).
+    { apply Z.ltb_ge. destruct (i_cmp_spec (o_amount out) (price (p_nodes prev) (u_nodes u))) as (_ & C2 & C3).
+      destruct (Z.eq_dec (o_amount out) (price (p_nodes prev) (u_nodes u))) as [Q|Q]; [rewrite (C2 Q); lia|].
+      rewrite C3; lia. }
+    rewrite C.
+    destruct (addr_eqb (u_cust u) (p_cust prev)) eqn:EA; simpl; [|reflexivity].
+    apply addr_eqb_eq in EA. destruct (R EA) as [R1 R2].
+    rewrite R1, Nat.eqb_refl.
+    assert (Z0 : del_all (p_nodes prev) (u_nodes u) = []).
+    { destruct (del_all (p_nodes prev) (u_nodes u)) as [|q l] eqn:EQ; [reflexivity|]. exfalso.
+      assert (Hq : In q (del_all (p_nodes prev) (u_nodes u))) by (rewrite EQ; left; reflexivity).
+      apply del_all_in in Hq as [H1 H2]. apply H2. apply R2. apply in_map. exact H1. }
+    rewrite Z0. reflexivity.
+Qed.
 
 End Validate.
+
+(* ---- the encoding is injective on shaped updates; rejection of unsorted / duplicate entries ------------ *)
+Definition update_shaped (u : update) : Prop :=
+  length (fst (u_cust u)) = 32 /\ length (snd (u_cust u)) = 32 /\ length (u_sig u) = 64 /\
+  Forall node_shape (u_nodes u).
+
+Lemma shape_len l : Forall node_shape l -> Forall (fun c => length c = node_size) (map cn_extra l).
+Proof. induction 1 as [|n t Hn _ IH]; simpl; constructor; [apply Hn|exact IH]. Qed.
+
+Lemma encode_update_inj u u' :
+  update_shaped u -> update_shaped u' -> encode_update u = encode_update u' -> u = u'.
+Proof.
+  intros (A1 & A2 & A3 & A4) (B1 & B2 & B3 & B4) E. unfold encode_update in E.
+  destruct u as [[a b] ns s], u' as [[a' b'] ns' s']; cbn [fst snd u_cust u_nodes u_sig] in *.
+  apply app_inj_len in E as [-> E]; [|congruence].
+  apply app_inj_len in E as [-> E]; [|congruence].
+  assert (L : length (concat (map cn_extra ns)) = length (concat (map cn_extra ns'))).
+  { apply (f_equal (@length N)) in E. rewrite !app_length in E. lia. }
+  apply app_inj_len in E as [E ->]; [|exact L].
+  rewrite !(concat_length_fixed node_size), !map_length in L by (apply shape_len; assumption).
+  pose proof node_size_pos. apply Nat.mul_cancel_r in L; [|lia].
+  assert (ns = ns'); [|subst; reflexivity].
+  apply node_shape_list_inj; try assumption.
+  apply (concat_inj_len node_size); try (apply shape_len; assumption); [rewrite !map_length; exact L|exact E].
+Qed.
+
+Lemma wf_shaped verify g u : update_wf verify g u -> update_shaped u.
+Proof.
+  intros (A & B & C & _ & F & _). repeat split; auto. eapply node_ok_shape. exact F.
+Qed.
+
+Lemma parse_rejects_unsorted verify g u :
+  update_shaped u -> ~ StronglySorted nlt (u_nodes u) ->
+  parse_update verify g (encode_update u) = Err.
+Proof.
+  intros Sh NS. destruct (parse_update verify g (encode_update u)) as [u'| |] eqn:E; [|reflexivity|].
+  - exfalso. apply parse_update_spec in E as [Ee W].
+    assert (u = u') by (apply encode_update_inj; [exact Sh|eapply wf_shaped; exact W|exact Ee]). subst u'.
+    apply NS. apply W.
+  - exfalso. exact (parse_update_no_panic _ _ _ E).
+Qed.
+
+Lemma unsorted_of_duplicate l :
+  ~ NoDup (map cn_cust_spend l) -> ~ StronglySorted nlt l.
+Proof. intros H S. apply H. apply sorted_strict_nodup. exact S. Qed.
+
+(* what acceptance means, in the words of the property *)
+Lemma accepted_facts verify tx extra store :
+  accepted verify tx extra store ->
+  exists out u prev,
+    t_outputs tx = [out] /\ store = StoreSome prev /\ extra = encode_update u /\
+    min_count <= length (u_nodes u) /\
+    StronglySorted nlt (u_nodes u) /\
+    NoDup (spend_keys (u_nodes u)) /\
+    Forall (fun n => node_shape n /\ node_signed verify n) (u_nodes u) /\
+    verify (fst (p_cust prev))
+           (fst (u_cust u) ++ snd (u_cust u) ++ concat (map cn_extra (u_nodes u))) (u_sig u) = true /\
+    (new_price * Z.of_nat (length (filter (is_new (p_nodes prev)) (u_nodes u)))
+     + update_price * Z.of_nat (length (filter (fun n => negb (is_new (p_nodes prev) n) && is_changed (p_nodes prev) n)
+                                                (u_nodes u)))
+     <= o_amount out)%Z.
+Proof.
+  intros (out & u & prev & _ & _ & V3 & _ & _ & _ & V7 & V8 & W & A & D & P & _).
+  pose proof W as (_ & _ & _ & Lm & F & Fr & S).
+  assert (F2 : Forall (fun n => node_shape n /\ node_signed verify n) (u_nodes u)).
+  { eapply Forall_impl; [|exact F]. intros n [Sh Sg]. split; [exact Sh|apply Sg; reflexivity]. }
+  exists out, u, prev. repeat (split; [solve [auto]|]). split.
+  - apply (fresh_spend_keys_nodup verify [] _ Fr). eapply Forall_impl; [|exact F2]. intros n [_ [Hn _]]. exact Hn.
+  - split; [exact F2|]. split; [exact A|]. rewrite <- (price_decl _ _ D). exact P.
+Qed.
+
+(* ---- EncodeCustodianNode's layout parses back ------------------------------------------------------------ *)
+Definition fields_wf (f : node_fields) : Prop :=
+  length (fst (f_cust f)) = 32 /\ length (snd (f_cust f)) = 32 /\
+  length (fst (f_payee f)) = 32 /\ length (snd (f_payee f)) = 32 /\
+  length (f_node_id f) = 32 /\ length (f_signer_sig f) = 64 /\
+  length (f_payee_sig f) = 64 /\ length (f_cust_sig f) = 64.
+
+(* the 161 bytes EncodeCustodianNode hashes and signs *)
+Definition signed_part (f : node_fields) : bytes :=
+  [action_update] ++ fst (f_cust f) ++ snd (f_cust f) ++ fst (f_payee f) ++ snd (f_payee f) ++ f_node_id f.
+
+Lemma slice_at (pre x post : bytes) lo hi :
+  length pre = lo -> length x = hi - lo -> slice lo hi (pre ++ x ++ post) = x.
+Proof.
+  intros L1 L2. unfold slice. rewrite (skipn_app_exact _ _ _ L1). apply firstn_app_exact. exact L2.
+Qed.
+
+Lemma encode_node_parses verify f :
+  fields_wf f ->
+  fst (f_payee f) <> fst (f_cust f) ->
+  verify (fst (f_payee f)) (signed_part f) (f_payee_sig f) = true ->
+  verify (fst (f_cust f)) (signed_part f) (f_cust_sig f) = true ->
+  parse_node verify false (encode_node f) = Ok (cnode_of_fields f).
+Proof.
+  intros (L1 & L2 & L3 & L4 & L5 & L6 & L7 & L8) Hne Vp Vc.
+  destruct f as [[cs cv] [ps pv] id s1 s2 s3]; cbn [fst snd f_cust f_payee f_node_id f_signer_sig f_payee_sig f_cust_sig] in *.
+  set (a := [action_update]).
+  assert (E : encode_node {| f_cust := (cs, cv); f_payee := (ps, pv); f_node_id := id;
+                             f_signer_sig := s1; f_payee_sig := s2; f_cust_sig := s3 |}
+              = a ++ cs ++ cv ++ ps ++ pv ++ id ++ s1 ++ s2 ++ s3) by reflexivity.
+  assert (La : length a = 1) by reflexivity.
+  assert (S1 : slice 1 33 (a ++ cs ++ cv ++ ps ++ pv ++ id ++ s1 ++ s2 ++ s3) = cs)
+    by (apply slice_at; lia).
+  assert (S2 : slice 33 65 (a ++ cs ++ cv ++ ps ++ pv ++ id ++ s1 ++ s2 ++ s3) = cv).
+  { replace (a ++ cs ++ cv ++ ps ++ pv ++ id ++ s1 ++ s2 ++ s3)
+      with ((a ++ cs) ++ cv ++ (ps ++ pv ++ id ++ s1 ++ s2 ++ s3)) by (rewrite <- !app_assoc; reflexivity).
+    apply slice_at; rewrite ?app_length; lia. }
+  assert (S3 : slice 65 97 (a ++ cs ++ cv ++ ps ++ pv ++ id ++ s1 ++ s2 ++ s3) = ps).
+  { replace (a ++ cs ++ cv ++ ps ++ pv ++ id ++ s1 ++ s2 ++ s3)
+      with ((a ++ cs ++ cv) ++ ps ++ (pv ++ id ++ s1 ++ s2 ++ s3)) by (rewrite <- !app_assoc; reflexivity).
+    apply slice_at; rewrite ?app_length; lia. }
+  assert (S4 : slice 97 129 (a ++ cs ++ cv ++ ps ++ pv ++ id ++ s1 ++ s2 ++ s3) = pv).
+  { replace (a ++ cs ++ cv ++ ps ++ pv ++ id ++ s1 ++ s2 ++ s3)
+      with ((a ++ cs ++ cv ++ ps) ++ pv ++ (id ++ s1 ++ s2 ++ s3)) by (rewrite <- !app_assoc; reflexivity).
+    apply slice_at; rewrite ?app_length; lia. }
+  assert (S5 : slice 0 161 (a ++ cs ++ cv ++ ps ++ pv ++ id ++ s1 ++ s2 ++ s3) = a ++ cs ++ cv ++ ps ++ pv ++ id).
+  { replace (a ++ cs ++ cv ++ ps ++ pv ++ id ++ s1 ++ s2 ++ s3)
+      with ([] ++ (a ++ cs ++ cv ++ ps ++ pv ++ id) ++ (s1 ++ s2 ++ s3)) by (rewrite <- !app_assoc; reflexivity).
+    apply slice_at; rewrite ?app_length; simpl; lia. }
+  assert (S6 : slice 225 289 (a ++ cs ++ cv ++ ps ++ pv ++ id ++ s1 ++ s2 ++ s3) = s2).
+  { replace (a ++ cs ++ cv ++ ps ++ pv ++ id ++ s1 ++ s2 ++ s3)
+      with ((a ++ cs ++ cv ++ ps ++ pv ++ id ++ s1) ++ s2 ++ s3) by (rewrite <- !app_assoc; reflexivity).
+    apply slice_at; rewrite ?app_length; lia. }
+  assert (S7 : slice 289 node_size (a ++ cs ++ cv ++ ps ++ pv ++ id ++ s1 ++ s2 ++ s3) = s3).
+  { replace (a ++ cs ++ cv ++ ps ++ pv ++ id ++ s1 ++ s2 ++ s3)
+      with ((a ++ cs ++ cv ++ ps ++ pv ++ id ++ s1 ++ s2) ++ s3 ++ []) by (rewrite <- !app_assoc, app_nil_r; reflexivity).
+    rewrite node_size_val. apply slice_at; rewrite ?app_length; lia. }
+  apply parse_node_spec. split; [reflexivity|]. unfold node_ok, node_shape, node_signed, cnode_of_fields.
+  cbn [cn_extra cn_cust_spend cn_cust_view cn_payee_spend cn_payee_view fst snd f_cust f_payee].
+  rewrite E, S1, S2, S3, S4, S5, S6, S7.
+  split.
+  - repeat split; auto. rewrite !app_length, node_size_val. lia.
+  - intros _. repeat split; assumption.
+Qed.
